@@ -109,7 +109,22 @@ func runCell(id string, c cell) runner.Result {
 	// every other injected read/write error describes itself as a timeout (Temporary() == true):
 	// it is a failure of the transport all the same
 	end.SetFault(simnet.Fault{Kind: c.kind, Offset: c.offset, Temporary: c.offset%2 == 1})
+	// every third case the client transport's own Close is a slow one: it tears everything down
+	// but returns late. While it is in progress the connection has to report itself closed already.
+	slowClose := c.offset%3 == 0
+	if slowClose {
+		x.Rig.Pair.A.HoldClose()
+	}
 	x.Start([][]*prog.Script{scripts2(w, x)})
+	var fails []string
+	failf := func(f string, a ...interface{}) { fails = append(fails, fmt.Sprintf(f, a...)) }
+	if slowClose {
+		census.Quiesce(rig.Watchdog)
+		if x.Rig.Pair.A.CloseHeld() && !rig.IsClosed(x.Rig.Conn.Closed()) {
+			failf("the client connection is closing its failed transport (the transport's Close is in progress) and does not report closed")
+		}
+		x.Rig.Pair.A.ReleaseClose()
+	}
 	st := x.WaitClients()
 	if st == "watchdog" {
 		x.Rig.Teardown()
@@ -117,8 +132,6 @@ func runCell(id string, c cell) runner.Result {
 	}
 	_, snap := census.Quiesce(rig.Watchdog)
 	fired := end.FaultFired()
-	var fails []string
-	failf := func(f string, a ...interface{}) { fails = append(fails, fmt.Sprintf(f, a...)) }
 	// 1. nothing hangs
 	for _, l := range x.Logs() {
 		for _, e := range l.Snapshot() {
@@ -275,7 +288,7 @@ func keyOf(s string) string {
 }
 
 var writeKinds = []simnet.FaultKind{simnet.FaultWriteErr, simnet.FaultWritePartial, simnet.FaultWriteErrOnly, simnet.FaultWritePartialOnly}
-var readKinds = []simnet.FaultKind{simnet.FaultReadErr, simnet.FaultReadDataErr, simnet.FaultPeerEOF, simnet.FaultPeerReset, simnet.FaultLocalClose}
+var readKinds = []simnet.FaultKind{simnet.FaultReadErr, simnet.FaultReadDataErr, simnet.FaultPeerEOF, simnet.FaultPeerReset, simnet.FaultLocalClose, simnet.FaultReadDataErrOnly}
 
 // rawServer: a raw peer writes a prefix of a valid client session (including RPCs abandoned before
 // their invoke) and the transport then ends at that point; the server endpoint must notice by itself.
@@ -816,7 +829,7 @@ func main() {
 	runner.Main(runner.Check{
 		Property: "C05",
 		Level:    "fault_enumeration",
-		Rule:     "fault points: for each of 16 deterministic workloads (unary small / multi-frame / with metadata / failing handler, client-, server-, bidirectional streams, failing bidi, two RPCs on one connection, early client close, flush-per-frame and 6 KB unary over a rendezvous transport) a fault-free run yields the byte streams and frame edges; one case = (workload, faulted endpoint, fault kind in {write error, partial write, read error, data+error, peer EOF, peer reset, local close (all fail-stop), write error only, partial write only (that one write fails, the transport stays usable)}, byte offset, read chunking). quick: every frame edge, edge-1, edge+1, offset 0 and 8 seeded interior offsets per direction with one seeded chunking; thorough: every byte offset x all three chunkings. Plus raw-server cases: a raw peer writes a seeded prefix (whole, frame edge, any byte) of a valid client session that may contain RPCs abandoned before their invoke (metadata and/or cancel only), then the transport ends (read error, EOF, reset, peer close); ServeOne must return without anybody telling it. Plus finish-race cases: the contexts of the first RPCs are cancelled exactly while their streams are being marked finished (parked at the hook), then a last RPC has receives pending on both sides when the transport is reset or closed. Plus fault-with-blocked-ops cases (a send stuck in the transport, Close/CloseSend of another goroutine queued behind it, then peer reset / peer close / Conn.Close). Plus close-during-decode cases: the connection is closed locally while a receiver is inside the decode of a message and the next message waits behind it. Non-trivial: the fault actually fired. Distinct: by case tuple.",
+		Rule:     "fault points: for each of 16 deterministic workloads (unary small / multi-frame / with metadata / failing handler, client-, server-, bidirectional streams, failing bidi, two RPCs on one connection, early client close, flush-per-frame and 6 KB unary over a rendezvous transport) a fault-free run yields the byte streams and frame edges; one case = (workload, faulted endpoint, fault kind in {write error, partial write, read error, data+error, peer EOF, peer reset, local close (all fail-stop), write error only, partial write only (that one write fails, the transport stays usable), data+error only (that one read returns its bytes together with an error, later reads would deliver the rest)}; in every third case the client transport's Close is slow (torn down, returns late) and the connection must report closed while it is in progress, byte offset, read chunking). quick: every frame edge, edge-1, edge+1, offset 0 and 8 seeded interior offsets per direction with one seeded chunking; thorough: every byte offset x all three chunkings. Plus raw-server cases: a raw peer writes a seeded prefix (whole, frame edge, any byte) of a valid client session that may contain RPCs abandoned before their invoke (metadata and/or cancel only), then the transport ends (read error, EOF, reset, peer close); ServeOne must return without anybody telling it. Plus finish-race cases: the contexts of the first RPCs are cancelled exactly while their streams are being marked finished (parked at the hook), then a last RPC has receives pending on both sides when the transport is reset or closed. Plus fault-with-blocked-ops cases (a send stuck in the transport, Close/CloseSend of another goroutine queued behind it, then peer reset / peer close / Conn.Close). Plus close-during-decode cases: the connection is closed locally while a receiver is inside the decode of a message and the next message waits behind it. Non-trivial: the fault actually fired. Distinct: by case tuple.",
 		Assumptions: []string{
 			"fault model is fail-stop: after the fault the endpoint's reads and writes both fail and the peer sees EOF or a reset after the surviving bytes; a transport whose writes fail while its reads stay healthy forever is not modelled (by design write errors are returned to the caller and the read error terminates the manager)",
 			"'every later call fails' is checked by issuing a send and a receive on each old stream, an Invoke and a NewStream after the process came to rest",
